@@ -7,6 +7,7 @@ Ops
   tblgene <table> <genome> <gene>                             the real TblGene: skeleton of every feature it yields
   seed <seed|~>                                               is `random.seed(random_seed)` applied? (two exports equal)
   locustags <prefix> <step> <m> n1 .. nm                      collection_to_tbl over m collections: the gene locus tags
+  headers <list|tuple|iter|gen> <m> {name n}                  collection_to_tbl over m collections (names may repeat): headers + gene counts
   coll <flavor> <table> <prefix> <step> <seed> <lab> <seqname> <genome> <genes>
                                                               collection_to_tbl text (twice with the same seed)
 """
@@ -173,6 +174,31 @@ def impl_tbl_op(line):
                             tags.append(q[4])
                         j += 1
             return "ok " + " ".join(G.enc(t) for t in tags)
+        if op == "headers":
+            how = tk.next()
+            m = tk.int()
+            spec = [(tk.next(), tk.int()) for _ in range(m)]
+            colls = []
+            for ci, (nm, n) in enumerate(spec):
+                genes = [dict(gtype="lncRNA", symbol=f"g{ci}.{i}",
+                              txs=[dict(ttype="lncRNA", strand="+", exons=[(3 * i, 3 * i + 2)], cds=[])])
+                         for i in range(n)]
+                colls.append(build_collection(dict(seqname=nm, genome="ACGT" * (n + 2), genes=genes))
+                             if n else AnnotationCollection(sequence_name=nm))
+            arg = {"list": colls, "tuple": tuple(colls), "iter": iter(colls), "gen": (c for c in colls)}[how]
+            fh = io.StringIO()
+            W.collection_to_tbl(arg, fh, locus_tag_prefix="LT", submitter_lab_name="lab", random_seed=1)
+            out = []
+            for ln in fh.getvalue().split("\n"):
+                if ln.startswith(">"):
+                    out.append([ln.split(" ", 1)[1] if " " in ln else "", 0])
+                else:
+                    c = ln.split("\t")
+                    if len(c) == 5 and c[2] == "gene":
+                        if not out:
+                            raise AssertionError("gene before any header")
+                        out[-1][1] += 1
+            return "ok " + " ".join(f"{a}:{b}" for a, b in out)
         if op == "coll":
             flavor = FLAVOR[tk.next()]
             table = TranslationTable(tk.int())
